@@ -268,6 +268,7 @@ func init() {
 		Assumptions: commonAssumptions,
 		Run: func(w *World, r *Report) {
 			v2 := w.Pkg(pathV2)
+			safely(r, "ruleIdentFallback", func() { ruleIdentFallback(w, r, v2, "v2") })
 			safely(r, "ruleIdentBinds", func() { ruleIdentBinds(w, r, v2, "v2") })
 			nt := newNodeTypes(w, v2, "v2")
 			safely(r, "ruleOptFwd", func() { ruleOptFwd(w, r, v2, "v2", "Option", diffSide, nil) })
@@ -297,6 +298,8 @@ func init() {
 		Assumptions: commonAssumptions,
 		Run: func(w *World, r *Report) {
 			v2 := w.Pkg(pathV2)
+			safely(r, "ruleIdentFallback", func() { ruleIdentFallback(w, r, v2, "v2") })
+			safely(r, "ruleKeyMiss", func() { ruleKeyMiss(w, r, v2, "v2") })
 			pf := newPatchFamily(w, v2, "v2")
 			safely(r, "ruleExpect", func() { ruleExpect(w, r, pf, setModePatch) })
 			safely(r, "rulePatchResult", func() { rulePatchResult(w, r, pf, setModePatch) })
@@ -329,6 +332,8 @@ func init() {
 		Assumptions: commonAssumptions,
 		Run: func(w *World, r *Report) {
 			v2 := w.Pkg(pathV2)
+			safely(r, "ruleIdentFallback", func() { ruleIdentFallback(w, r, v2, "v2") })
+			safely(r, "ruleKeyMiss", func() { ruleKeyMiss(w, r, v2, "v2") })
 			safely(r, "ruleRootPath", func() { ruleRootPath(w, r, v2, "v2") })
 			safely(r, "ruleCursor", func() { ruleCursor(w, r, v2, "v2") })
 			safely(r, "ruleNoEmpty", func() { ruleNoEmpty(w, r, v2, "v2", "Remove", "Add") })
